@@ -126,8 +126,27 @@ fn comb_case(n: usize) -> Case {
     Case { family: "S-large", desc: format!("comb of {} thin rectangles against a small box", n), a, b, exact: true, exact_f32: false, integer: false, f32_ok: true, self_crossing: false, faces: vec![] }
 }
 
+/// heap bound per call: linear in the number of sweep events actually processed (plus the operands' own size)
+pub fn heap_bound(n_edges: usize, events: u64) -> usize {
+    (64 << 10) + 1024 * (events as usize + 2 * n_edges)
+}
+
 pub fn c03_check(case: &Case, op: Op, f32_run: bool) -> Result<(), Fail> {
-    run(&case.a, &case.b, op, f32_run).map(|_| ())
+    let before = crate::util::heap_mark();
+    let r = run(&case.a, &case.b, op, f32_run).map(|_| ());
+    let peak = crate::util::heap_peak().saturating_sub(before);
+    let events = geo_booleanop::verif::steps(geo_booleanop::verif::Loop::Sweep);
+    let bound = heap_bound(case.n_edges(), events);
+    LAST_HEAP.with(|l| l.set((peak, bound)));
+    r?;
+    if peak > bound {
+        return Err(("heap".into(), format!("peak heap growth during the call was {} bytes for {} input edges and {} sweep events (bound {} bytes)", peak, case.n_edges(), events, bound)));
+    }
+    Ok(())
+}
+
+thread_local! {
+    pub static LAST_HEAP: std::cell::Cell<(usize, usize)> = const { std::cell::Cell::new((0, 0)) };
 }
 
 pub fn c03_worker(ctx: &mut Ctx) {
@@ -159,6 +178,11 @@ pub fn c03_worker(ctx: &mut Ctx) {
                 }
                 let ev = geo_booleanop::verif::steps(geo_booleanop::verif::Loop::Sweep);
                 max_events = max_events.max(ev);
+                let (peak, bound) = LAST_HEAP.with(|l| l.get());
+                if bound > 0 && ctx.variant != "miri" {
+                    ctx.max("max_heap_growth_permille_of_bound", (peak as u64 * 1000) / bound as u64);
+                    ctx.max("max_heap_growth_bytes", peak as u64);
+                }
                 if n > 0 {
                     // observed ratio events / budget (budget = 4n^2+8n+64)
                     let permille = ev * 1000 / sweep_budget(n);
@@ -816,7 +840,83 @@ pub fn c10_nextafter(rng: &mut Rng, n: usize) -> Result<u64, Fail> {
     Ok(checked)
 }
 
+fn ulp_step32(x: f32, k: i32) -> f32 {
+    let mut v = x;
+    for _ in 0..k.abs() {
+        v = next_bits32(v, k > 0);
+    }
+    v
+}
+fn ulp_step64(x: f64, k: i32) -> f64 {
+    let mut v = x;
+    for _ in 0..k.abs() {
+        v = next_bits64(v, k > 0);
+    }
+    v
+}
+
+/// The orientation predicate as exposed by SweepEvent::is_below / is_above, on nearly collinear triples, in both
+/// instantiations, against the exact sign (f32 widens to f64 exactly; robust::orient2d is exact on f64).
+pub fn c10_orientation(rng: &mut Rng, n: usize) -> Result<u64, Fail> {
+    use geo_booleanop::boolean::sweep_event::SweepEvent;
+    use geo_types::Coord;
+    use std::rc::{Rc, Weak};
+    let mut checked = 0;
+    for i in 0..n {
+        let mag = [1.0f64, 1e-3, 1e3, 1e6, 37.0][rng.below(5) as usize];
+        let a = ((rng.unit() * 2.0 - 1.0) * mag, (rng.unit() * 2.0 - 1.0) * mag);
+        // a long and a short reference segment from the same point
+        let len = [1.0, 1e-3, 1e3][rng.below(3) as usize];
+        let b = (a.0 + rng.unit() * mag * len, a.1 + (rng.unit() * 2.0 - 1.0) * mag * len);
+        let t = [0.5, 0.001, 0.999, 2.0, 1000.0, -0.5][rng.below(6) as usize] * rng.unit();
+        let p = (a.0 + t * (b.0 - a.0), a.1 + t * (b.1 - a.1));
+        let k = rng.range(-3, 3) as i32;
+        if i % 2 == 0 {
+            let (a32, b32) = ((a.0 as f32, a.1 as f32), (b.0 as f32, b.1 as f32));
+            let p32 = (p.0 as f32, ulp_step32(p.1 as f32, k));
+            if a32 == b32 {
+                continue;
+            }
+            let (l, r) = if (a32.0, a32.1) < (b32.0, b32.1) { (a32, b32) } else { (b32, a32) };
+            let right = SweepEvent::<f32>::new_rc(0, Coord { x: r.0, y: r.1 }, false, Weak::new(), true, true);
+            let left = SweepEvent::<f32>::new_rc(0, Coord { x: l.0, y: l.1 }, true, Rc::downgrade(&right), true, true);
+            right.set_other_event(&left);
+            let sign = orient((l.0 as f64, l.1 as f64), (r.0 as f64, r.1 as f64), (p32.0 as f64, p32.1 as f64));
+            let q = Coord { x: p32.0, y: p32.1 };
+            checked += 1;
+            if left.is_below(q) != (sign > 0) || left.is_above(q) != (sign <= 0) || right.is_below(q) != (sign > 0) {
+                return Err(("f32:orientation".into(), format!("f32 segment {:?}-{:?}, point {:?}: is_below={} (from the right event: {}) but the exact orientation sign is {}", l, r, p32, left.is_below(q), right.is_below(q), sign)));
+            }
+        } else {
+            let p64 = (p.0, ulp_step64(p.1, k));
+            if a == b {
+                continue;
+            }
+            let (l, r) = if a < b { (a, b) } else { (b, a) };
+            let right = SweepEvent::<f64>::new_rc(0, Coord { x: r.0, y: r.1 }, false, Weak::new(), true, true);
+            let left = SweepEvent::<f64>::new_rc(0, Coord { x: l.0, y: l.1 }, true, Rc::downgrade(&right), true, true);
+            right.set_other_event(&left);
+            let sign = orient(l, r, p64);
+            let q = Coord { x: p64.0, y: p64.1 };
+            checked += 1;
+            if left.is_below(q) != (sign > 0) || left.is_above(q) != (sign <= 0) || right.is_below(q) != (sign > 0) {
+                return Err(("f64:orientation".into(), format!("f64 segment {:?}-{:?}, point {:?}: is_below={} but the exact orientation sign is {}", l, r, p64, left.is_below(q), sign)));
+            }
+        }
+    }
+    Ok(checked)
+}
+
 pub fn c10_worker(ctx: &mut Ctx) {
+    {
+        let mut rng = ctx.rng("orientation", ctx.shard);
+        ctx.begin("orientation", ctx.shard, "");
+        match c10_orientation(&mut rng, 400_000) {
+            Ok(n) => ctx.cnt("near_collinear_orientation_queries_compared_with_exact_sign", n),
+            Err((sym, detail)) => ctx.violation(&sym, &detail, json!({"kind": "orientation", "property": "C10", "seed": ctx.seed, "shard": ctx.shard})),
+        }
+        ctx.end();
+    }
     {
         let mut rng = ctx.rng("nextafter", ctx.shard);
         ctx.begin("nextafter", ctx.shard, "");
@@ -905,7 +1005,58 @@ pub fn gen_triple(rng: &mut Rng, size: usize) -> Triple {
     }
 }
 
+/// float variant: three selections on one jittered triangulation (shared vertices bit-identical, no T contacts);
+/// only chains with the independent third operand are demanded (re-using an operand makes every boundary of the
+/// intermediate result coincide with input boundaries at computed coordinates)
+pub fn gen_triple_float(rng: &mut Rng, size: usize) -> Triple {
+    let dim = if size <= 1 { 4 } else { 7 };
+    let (w, h) = (rng.range(1, dim) as usize, rng.range(1, dim) as usize);
+    let t = Tess::tri_grid(rng, w, h);
+    let nf = t.faces.len();
+    let dens = |rng: &mut Rng| -> Vec<bool> {
+        let d = rng.range(20, 80) as u64;
+        (0..nf).map(|_| rng.below(100) < d).collect()
+    };
+    let (sa, sb, sc) = (dens(rng), dens(rng), dens(rng));
+    let scale = [1.0, 1e-3, 1e4][rng.below(3) as usize];
+    let mut jit: std::collections::HashMap<P, Pt> = std::collections::HashMap::new();
+    for y in 0..=h as i64 {
+        for x in 0..=w as i64 {
+            jit.insert((x, y), ((x as f64 + (rng.unit() - 0.5) * 0.4) * scale * 1.2345678, (y as f64 + (rng.unit() - 0.5) * 0.4) * scale * 0.87654321));
+        }
+    }
+    let map = |p: P| -> Pt { jit[&p] };
+    let a = t.to_mp(&sa, false, &map);
+    let b = t.to_mp(&sb, false, &map);
+    let c = t.to_mp(&sc, false, &map);
+    let faces3 = (0..nf).map(|f| (t.centroid(f, &map), sa[f], sb[f], sc[f])).collect::<Vec<_>>();
+    let faces = faces3.iter().map(|&(p, x, y, _)| (p, x, y)).collect();
+    Triple { case: Case { family: "D4-tri", desc: format!("{}x{} jittered triangulation, three selections", w, h), a, b, exact: false, exact_f32: false, integer: false, f32_ok: false, self_crossing: false, faces }, c, faces3 }
+}
+
+pub fn c11_check_float(t: &Triple, counts: &mut std::collections::BTreeMap<String, u64>) -> Result<(), Fail> {
+    let (a, b, c) = (&t.case.a, &t.case.b, &t.c);
+    for op1 in OPS {
+        let r1 = run(a, b, op1, false)?;
+        for op2 in OPS {
+            for (name, r2, flip) in [("(A op B) op' C", run(&r1, c, op2, false)?, false), ("C op' (A op B)", run(c, &r1, op2, false)?, true)] {
+                *counts.entry(format!("float-chains:{}", name)).or_insert(0) += 1;
+                for &(p, x, y, z) in &t.faces3 {
+                    let want = if flip { op2.apply(z, op1.apply(x, y)) } else { op2.apply(op1.apply(x, y), z) };
+                    if in_mp(&r2, p.0, p.1) != want {
+                        return Err(("chain".into(), format!("{} with op={} op'={} on a float triangulation: face centroid {:?} (A={},B={},C={}) should be {} but is {}", name, op1.name(), op2.name(), p, x, y, z, want, !want)));
+                    }
+                }
+            }
+        }
+    }
+    Ok(())
+}
+
 pub fn c11_check(t: &Triple, counts: &mut std::collections::BTreeMap<String, u64>) -> Result<(), Fail> {
+    if !t.case.exact {
+        return c11_check_float(t, counts);
+    }
     let (a, b, c) = (&t.case.a, &t.case.b, &t.c);
     for op1 in OPS {
         let r1 = run(a, b, op1, false)?;
@@ -945,7 +1096,7 @@ pub fn c11_worker(ctx: &mut Ctx) {
             break;
         }
         let mut rng = ctx.rng("triple", i);
-        let t = gen_triple(&mut rng, ctx.size());
+        let t = if i % 4 == 3 { gen_triple_float(&mut rng, ctx.size()) } else { gen_triple(&mut rng, ctx.size()) };
         ctx.cnt(&format!("family:{}", t.case.family), 1);
         ctx.begin("triple", i, "");
         ctx.evaluations += 1;
